@@ -834,3 +834,45 @@ Proof. exact (Gen_ops_eq.gen_link_dim_clash ord_n ord_e is_model is_frozen_model
 End GeneratedLinkNClash.
 
 Print Assumptions C03_generated_link_dim_clash.
+
+(* ------------------------------------------------------------------------------------------------------------------
+   tie (T) for `Model.update_graph` (reservoirpy/model.py): gen/Gen_update.v is re-translated from the source on every run by
+   tools/vlib/py2coq_upd.py (graph part translated statement by statement, bookkeeping tail pinned).  The generated
+   update_graph, called as `m &= bs` calls it, unites the node / edge SETS of [merge_graph_l], inserts the Concats of [cmi],
+   computes the [entries] / [exits] and returns (order, edges, entries, exits) with the order produced by the generated
+   topological_sort (the C03_generated_toposort theorems) on exactly these. *)
+From RV Require gen.Gen_update proofs.Gen_update_eq.
+
+Section GeneratedUpdate.
+Variable ord_n : nat -> list node -> list node.
+Variable ord_e : nat -> list edge -> list edge.
+Variable ord_c_n : nat -> list node -> list node.
+Variable ord_c_e : nat -> list edge -> list edge.
+Variable ord_g : nat -> list node -> list node.
+Variable srt : list edge -> list edge.
+Variable isc : node -> bool.
+Variable new_concat : nat -> node -> node.
+Hypothesis Hord_n : forall k s, Permutation (ord_n k s) s.
+Hypothesis Hord_e : forall k s, Permutation (ord_e k s) s.
+Hypothesis Hord_c_n : forall k s, Permutation (ord_c_n k s) s.
+Hypothesis Hord_c_e : forall k s, Permutation (ord_c_e k s) s.
+Hypothesis Hord_g : forall k s, Permutation (ord_g k s) s.
+Hypothesis Hsrt : forall l, Permutation (srt l) l.
+
+Theorem C03_generated_update_graph_is_model (m : model) (bs : list value) (fuel : nat) :
+  let nn := flat_map v_nodes bs in let ne := flat_map v_edges bs in
+  let V0 := ord_n 0 (PyColl.set_union (PyColl.py_set nn) (PyColl.py_set (mNodes m))) in
+  let E0 := ord_e 0 (PyColl.set_union (PyColl.py_set ne) (PyColl.py_set (mEdges m))) in
+  C03_same_set V0 (fst (merge_graph_l (VModel m) bs)) /\ C03_same_set E0 (snd (merge_graph_l (VModel m) bs)) /\
+  exists V' E' ins outs,
+    C03_same_set V' (fst (cmi isc (new_concat 0) V0 E0)) /\ C03_same_set E' (snd (cmi isc (new_concat 0) V0 E0)) /\
+    (NoDup ins /\ forall v, In v ins <-> In v (entries V' E')) /\
+    (NoDup outs /\ forall v, In v outs <-> In v (exits V' E')) /\
+    Gen_update.GenUpdate.update_graph ord_n ord_e ord_c_n ord_c_e ord_g srt isc new_concat (mNodes m) (mEdges m) fuel nn ne =
+      PyColl.py_bind (Gen_graphflow.GenGraphflow.topological_sort ord_g srt fuel V' E' (Some ins))
+                     (fun l => PyColl.Val (l, E', ins, outs)).
+Proof. exact (Gen_update_eq.gen_update_graph_is_model ord_n ord_e ord_c_n ord_c_e ord_g srt isc new_concat
+  Hord_n Hord_e Hord_c_n Hord_c_e Hord_g Hsrt m bs fuel). Qed.
+End GeneratedUpdate.
+
+Print Assumptions C03_generated_update_graph_is_model.
